@@ -321,6 +321,67 @@ def store2 (collC collP : Bool) : Store where
   ref := fun o a => if o = 0 ∧ a = aC ∧ collC = false then some 1 else if o = 1 ∧ a = aP ∧ collP = false then some 0 else none
   mem := fun o a x => (decide (o = 0 ∧ a = aC ∧ x = 1) && collC) || (decide (o = 1 ∧ a = aP ∧ x = 0) && collP)
 
+/-- the cells of the two-object graph -/
+theorem hasB_store2 (dC dP : Side) (collC collP : Bool) (hC : dC.isColl = collC) (hP : dP.isColl = collP) (p : ObjId) (b : Attr) (q : ObjId) :
+    hasB (sch2 dC dP) (store2 collC collP) p b q = true ↔ (p = 0 ∧ b = aC ∧ q = 1) ∨ (p = 1 ∧ b = aP ∧ q = 0) := by
+  rcases b with ⟨rel, sd⟩
+  cases rel with
+  | succ k => simp [hasB, Schema.side, sch2, aC, aP]
+  | zero =>
+    cases sd <;> cases collC <;> cases collP <;> simp [hasB, Schema.side, sch2, store2, aC, aP, hC, hP] <;>
+      intro _ <;> exact ⟨fun h => h.symm, fun h => h.symm⟩
+
+/-- the two-object graph satisfies the session invariant (the hypotheses of the theorems above are satisfiable, non-trivially) -/
+theorem sinv_store2 (dC dP : Side) (collC collP : Bool) (hC : dC.isColl = collC) (hP : dP.isColl = collP)
+    (heC : dC.ent = 0) (heP : dP.ent = 1) : SInv (sch2 dC dP) (store2 collC collP) := by
+  have H := hasB_store2 dC dP collC collP hC hP
+  refine ⟨⟨?_, ?_⟩, ?_, ?_⟩
+  · intro p b q h
+    rcases (H p b q).mp h with ⟨_, _, rfl⟩ | ⟨_, _, rfl⟩ <;> simp [store2]
+  · intro p b q d h hd
+    rcases (H p b q).mp h with ⟨rfl, rfl, rfl⟩ | ⟨rfl, rfl, rfl⟩
+    · simp [Schema.side, sch2, aC] at hd; subst hd; simp [store2, heC]
+    · simp [Schema.side, sch2, aP] at hd; subst hd; simp [store2, heP]
+  · intro p b q _ h
+    rcases (H p b q).mp h with ⟨rfl, rfl, rfl⟩ | ⟨rfl, rfl, rfl⟩
+    · exact (H 1 _ 0).mpr (Or.inr ⟨rfl, by simp [Schema.rev, sch2, aC, aP], rfl⟩)
+    · exact (H 0 _ 1).mpr (Or.inl ⟨rfl, by simp [Schema.rev, sch2, aC, aP], rfl⟩)
+  · intro p b q _ h
+    rcases (H p b q).mp h with ⟨_, _, rfl⟩ | ⟨_, _, rfl⟩ <;> simp [store2]
+
+/-- hypotheses of `C15_cascade` met non-trivially: a parent with a cascading collection and its Required child — both die -/
+example : let sch := sch2 ⟨0, false, true, false, true⟩ ⟨1, true, false, true, false⟩
+    CascWF sch ∧ SInv sch (store2 false true) ∧ (store2 false true).alive 1 = true ∧
+    ∃ s', delete sch false 6 [] 1 (store2 false true) = .ok s' ∧ s'.alive 0 = false ∧ s'.alive 1 = false := by
+  refine ⟨?_, sinv_store2 _ _ false true rfl rfl rfl rfl, rfl, _, rfl, rfl, rfl⟩
+  intro a d rd ha hra hc
+  rcases a with ⟨rel, sd⟩
+  cases rel with
+  | succ k => simp [Schema.side, sch2] at ha
+  | zero =>
+    cases sd
+    · simp [Schema.side, sch2] at ha; subst ha; cases hc
+    · simp [Schema.side, Schema.rev, sch2] at ha hra; subst hra; rfl
+
+/-- hypotheses of `C15_refuse` met: the Required child (object 0) of a parent WITHOUT cascade is outside the closure of the parent -/
+example : let sch := sch2 ⟨0, false, true, false, true⟩ ⟨1, true, false, false, false⟩
+    SInv sch (store2 false true) ∧ Reach sch (store2 false true) 1 1 ∧ ¬ Reach sch (store2 false true) 1 0 ∧
+    hasB sch (store2 false true) 0 aC 1 = true ∧ delete sch false 6 [] 1 (store2 false true) = .error .constraintError := by
+  refine ⟨sinv_store2 _ _ false true rfl rfl rfl rfl, .refl _, ?_, rfl, rfl⟩
+  intro h
+  -- no attribute cascades, so nothing but the object itself is reachable
+  have : ∀ x, Reach (sch2 ⟨0, false, true, false, true⟩ ⟨1, true, false, false, false⟩) (store2 false true) 1 x → x = 1 := by
+    intro x hx
+    induction hx with
+    | refl => rfl
+    | step _ he _ =>
+      obtain ⟨b, hb, _⟩ := he
+      rcases b with ⟨rel, sd⟩
+      cases rel with
+      | succ k => simp [Schema.isCascade, Schema.side, sch2] at hb
+      | zero => cases sd <;> simp [Schema.isCascade, Schema.side, sch2] at hb
+  exact absurd (this 0 h) (by decide)
+
 /-- observable outcome: `none` = refused; else (row 0 exists, row 1 exists, FK value of row 0 under `aC`, link row (0,1) exists) -/
 def obsDb (db : Option Db) : Option (Bool × Bool × Option ObjId × Bool) :=
   db.map fun db => (db.row 0, db.row 1, db.col 0 aC, db.link aC 0 1)
